@@ -1,9 +1,11 @@
 #!/usr/bin/env python3
-"""Regenerates MANIFEST.json from lean/obligations.json + manifest_text.json (level text per property)."""
+"""Regenerates MANIFEST.json from lean/obligations/*.json + manifest_text/*.json (level text per property)."""
 import json, os
 ROOT = os.path.dirname(os.path.abspath(__file__))
-obs = json.load(open(os.path.join(ROOT, "lean", "obligations.json")))
-txt = json.load(open(os.path.join(ROOT, "manifest_text.json")))
+def loaddir(d):
+    return {fn[:-5]: json.load(open(os.path.join(d, fn))) for fn in sorted(os.listdir(d)) if fn.endswith(".json")}
+obs = loaddir(os.path.join(ROOT, "lean", "obligations"))
+txt = loaddir(os.path.join(ROOT, "manifest_text"))
 props = [json.loads(l) for l in open(os.path.join(ROOT, "properties.jsonl"))]
 baseline = json.load(open("/root/.vp/BASELINE.json"))["cmd"] if os.path.exists("/root/.vp/BASELINE.json") else ""
 checks, na = [], []
@@ -40,3 +42,14 @@ m = {
 }
 json.dump(m, open(os.path.join(ROOT, "MANIFEST.json"), "w"), indent=1)
 print("checks:", [c["property_id"] for c in checks], "n/a:", len(na))
+
+# known_findings.json = concatenation of known_findings.d/Cxx.json (one list of entries per property);
+# both are committed, nothing is ever added at run time.
+kd = os.path.join(ROOT, "known_findings.d")
+fs = []
+if os.path.isdir(kd):
+    for fn in sorted(os.listdir(kd)):
+        if fn.endswith(".json"):
+            fs += json.load(open(os.path.join(kd, fn)))
+json.dump({"findings": fs}, open(os.path.join(ROOT, "known_findings.json"), "w"), indent=1)
+print("known findings:", [f["id"] for f in fs])
